@@ -102,6 +102,11 @@ pub fn maybe_gen_extract(rng: &mut Rng, _tier: Tier, idx: u64) -> Option<Case> {
         globs,
         uniq: r.next_u64(),
         cancel_after: if r.chance(1, 12) { Some(0) } else { None },
+        prior: if r.chance(1, 3) {
+            (0..r.urange(1, 3)).map(|i| Member { name: format!("prior{}/p{}.dlt", i, r.below(100)), data: r.bytes(20), is_dir: false }).collect()
+        } else {
+            vec![]
+        },
     })
 }
 
@@ -189,9 +194,10 @@ pub fn run_extract(
     globs: &[String],
     uniq: u64,
     cancel_after: Option<usize>,
+    prior: &[Member],
     ctx: &mut Ctx,
 ) -> Result<(), Violation> {
-    let r = run_extract_inner(members, globs, uniq, cancel_after, ctx);
+    let r = run_extract_inner(members, globs, uniq, cancel_after, prior, ctx);
     if std::env::var("VERIF_KEEP").is_err() {
         let _ = std::fs::remove_dir_all(root_dir());
     }
@@ -203,6 +209,7 @@ fn run_extract_inner(
     globs: &[String],
     uniq: u64,
     cancel_after: Option<usize>,
+    prior: &[Member],
     ctx: &mut Ctx,
 ) -> Result<(), Violation> {
     let root = root_dir();
@@ -240,7 +247,10 @@ fn run_extract_inner(
     // unique archive path per *execution* (adlt caches archive listings by path for 60 s)
     static EXEC: std::sync::atomic::AtomicU64 = std::sync::atomic::AtomicU64::new(0);
     let exec = EXEC.fetch_add(1, std::sync::atomic::Ordering::SeqCst);
-    let base = work.join(format!("a{:016x}-{}.zip", uniq, exec));
+    // same file name in a directory of its own per execution (listings are cached per path, not per name)
+    let dir = work.join(format!("e{:016x}-{}", uniq, exec));
+    std::fs::create_dir_all(&dir).unwrap();
+    let base = dir.join("archive.zip");
     let first: PathBuf;
     if nvol == 0 {
         std::fs::write(&base, &zipbytes).unwrap();
@@ -272,6 +282,18 @@ fn run_extract_inner(
         ctx.fired("cancelled_before_start");
     }
     let mut temp_dirs: Vec<(String, tempfile::TempDir)> = vec![];
+    if !prior.is_empty() {
+        // history: an archive with the same file name in another directory was opened before
+        if let Ok(pz) = build_zip(prior, false) {
+            let pdir = work.join(format!("p{:016x}-{}", uniq, exec));
+            std::fs::create_dir_all(&pdir).unwrap();
+            let pp = pdir.join("archive.zip");
+            std::fs::write(&pp, pz).unwrap();
+            let never = Arc::new(AtomicBool::new(false));
+            let _ = adlt::utils::unzip::extract_archives(format!("{}!/**/*", pp.display()), &mut temp_dirs, &never, &log);
+            ctx.probe("same_named_archive_opened_before");
+        }
+    }
     let mut all_reported: Vec<(String, Vec<String>)> = vec![];
     for g in globs {
         let arg = format!("{}{}", first.display(), g);
